@@ -112,6 +112,7 @@ fn exec_on_this_thread<O: 'static>(prefix: Vec<Point>, cfg: &RunCfg, scen: &Scen
         tokio::verif_hook::Kind::Task => tape::choose(Kind::Task, n),
         tokio::verif_hook::Kind::Select => tape::choose(Kind::Select, n),
     }));
+    fe2o3_amqp::verif::set_preempt_hook(Box::new(|_label| tape::choose(Kind::Preempt, 3) as u8));
     SPUN.with(|s| s.set(false));
     {
         let limit = cfg.spin_limit;
@@ -151,6 +152,7 @@ fn exec_on_this_thread<O: 'static>(prefix: Vec<Point>, cfg: &RunCfg, scen: &Scen
         }))
     });
     tokio::verif_hook::clear_hook();
+    fe2o3_amqp::verif::clear_preempt_hook();
     let taken = tape::take();
     let spun = SPUN.with(|s| s.get());
     match res {
